@@ -251,13 +251,21 @@ func oneMain(args []string) {
 		}
 		fmt.Println("B", f.caseID(idx))
 		outcome, fd := f.exec(idx)
-		fmt.Println("RESULT", outcome, fd)
+		fmt.Println("RESULT", outcome)
+		if fd != nil {
+			fmt.Printf("FINDING %s: %s\n", fd.Kind, fd.What)
+		}
 	case "dkg":
 		p, _ := parsePath(args[3])
 		d := u.dkg[ui]
 		fmt.Println("B", strings.Join(d.labels(p), " ; "))
 		pan, last, err := d.replayPath(p)
 		fmt.Println("RESULT", pan, last, err)
+		if pan != "" {
+			fmt.Printf("FINDING panic: Go panic: %s\n", pan)
+		} else if last != nil && errClass(last) == "untyped" {
+			fmt.Printf("FINDING untyped-error: %v\n", last)
+		}
 	}
 }
 
@@ -941,8 +949,8 @@ func (p *parent) serve(slot int, wg *sync.WaitGroup, ws []*worker, wsMu *sync.Mu
 func parentMain() {
 	run := ev.Start("C09", "fault_enumeration")
 	if run.Replay != "" {
-		fmt.Println("C09: replay files name the function, the input classes and the argument bytes; re-run the check to reproduce")
-		os.Exit(0)
+		replayMain(run)
+		return
 	}
 	budget := 140 * time.Second
 	tier := "quick"
@@ -1150,6 +1158,72 @@ func parentMain() {
 		"nil interface / nil callback arguments, UintN(0), linear-memory sizes above 2^16 and no-cgo builds are documented exceptions and are not passed",
 		"methods promoted from embedded standard-library types (hash.Hash, sha3.ShakeHash) that are not part of hash.Hasher are outside the three packages' declared API",
 		"DKG state de-duplication hashes every field of the real instance (dkgsys.InstHash); states are rebuilt in the workers by replaying their path")
+	run.Finish()
+}
+
+// replayMain re-executes the case stored in a replay file in an isolated child process.
+func replayMain(run *ev.Run) {
+	b, err := os.ReadFile(run.Replay)
+	if err != nil {
+		run.Fatal("cannot read %s: %v", run.Replay, err)
+	}
+	var rf struct {
+		Key    string `json:"key"`
+		Replay struct {
+			Function string `json:"function"`
+			Case     string `json:"case"`
+			Unit     string `json:"unit"`
+			Path     []int  `json:"path"`
+		} `json:"replay"`
+	}
+	if err := json.Unmarshal(b, &rf); err != nil {
+		run.Fatal("cannot parse %s: %v", run.Replay, err)
+	}
+	tier := "quick"
+	if run.Thorough() {
+		tier = "thorough"
+	}
+	u, err := buildUniverse(run.Seed, run.Thorough())
+	if err != nil {
+		run.Fatal("%v", err)
+	}
+	var args []string
+	if rf.Replay.Unit != "" {
+		for i, d := range u.dkg {
+			if d.Name == rf.Replay.Unit {
+				args = []string{"dkg", strconv.Itoa(i), pathString(rf.Replay.Path)}
+			}
+		}
+	} else {
+		for i, f := range u.fns {
+			if f.Name != rf.Replay.Function {
+				continue
+			}
+			for _, idx := range f.tuples {
+				if f.caseID(idx) == rf.Replay.Case {
+					args = []string{"fn", strconv.Itoa(i), idxString(idx)}
+					break
+				}
+			}
+		}
+	}
+	if args == nil {
+		run.Fatal("the case of %s is not part of the %s universe of the current tree", run.Replay, tier)
+	}
+	cmd := exec.Command(os.Args[0], append([]string{"--one", tier}, args...)...)
+	cmd.Env = append(os.Environ(), "ASAN_OPTIONS=detect_leaks=0:abort_on_error=0", "GOTRACEBACK=single")
+	out, err := cmd.CombinedOutput()
+	fmt.Print(tail(string(out), 6000))
+	run.Add("evaluations", 1)
+	run.Set("rule", "replay of one stored case in an isolated process")
+	switch {
+	case err != nil:
+		run.Violation(rf.Key, "replayed case killed the process: "+deathSummary(string(out)), nil)
+	case strings.Contains(string(out), "\nFINDING "):
+		run.Violation(rf.Key, "replayed case reproduces the finding", nil)
+	default:
+		fmt.Println("replayed case does not fail on the current tree")
+	}
 	run.Finish()
 }
 
